@@ -105,6 +105,11 @@ Definition K_SPAWN := 12.  Definition K_PROC_SET := 13.  Definition K_PROC_GET :
 Definition K_PROC_ITEM := 15.  Definition K_PROC_DEL := 16.  Definition K_PID := 17.
 Definition K_POLL := 18.  Definition K_WAIT := 19.  Definition K_KILL := 20.
 Definition K_WQ_PUT := 23.  Definition K_WQ_GET := 24.  Definition K_WQ_EMPTY := 25.  Definition K_EXIT := 26.
+Definition K_CHECK := 27.      (* the watcher enters _check_running *)
+(* MAX_QUEUE_BULKSIZE of Popen._watch: at most that many tasks are pulled from the watch queue per round *)
+Definition bulk : nat := 100.
+Arguments bulk : simpl never.
+Global Opaque bulk.          (* tactics keep it folded; vm_compute still evaluates it *)
 Definition L_CHECK := 1.  Definition L_CANCEL := 2.  Definition L_TO := 3.
 
 (* ---- Popen.cancel_task(task), one step; None = the call returned ---- *)
@@ -248,10 +253,13 @@ Definition adv_item (a : Z * Z) : item :=
 
 Definition wstep (s : state) : state * list event * list emission :=
   match wpc_ s with
-  | WDrain =>                (* to_watch.append(self._watch_queue.get_nowait()) until queue.Empty *)
-      let tw := w_watch s ++ wq s in
-      (set_wpc (set_w_watch (set_wq s []) tw) (witer_next tw []),
-       map (fun u => ev K_WQ_GET u 0) (wq s) ++ [ev K_WQ_EMPTY 0 0], [])
+  | WDrain =>                (* while count < MAX_QUEUE_BULKSIZE: to_watch.append(self._watch_queue.get_nowait())
+                                -- until queue.Empty or the bulk is full; then _check_running(to_watch) is entered *)
+      let take := firstn bulk (wq s) in
+      let tw := w_watch s ++ take in
+      (set_wpc (set_w_watch (set_wq s (skipn bulk (wq s))) tw) (witer_next tw []),
+       map (fun u => ev K_WQ_GET u 0) take
+       ++ (if Nat.ltb (length take) bulk then [ev K_WQ_EMPTY 0 0] else []) ++ [ev K_CHECK 0 0], [])
   | WTask pc u r adv =>
       match pc with
       | WGet =>              (* task_proc = task.get('proc'); if None: to_watch.remove(task); continue *)
